@@ -9,10 +9,10 @@ RULE = ("cases = (number of fields 1..3, common length, selector / concatenation
 ASSUMPTIONS = ["oracle: numpy indexing / concatenation of each field array on its own", "field contents are distinct per field and row so a misaligned entry is visible"]
 REQUIRED_FEATURES = ["three_fields", "two_dim_field", "zero_length", "mask_selector", "list_with_repeats", "mismatch_refused", "varlen_widths_differ",
                      "concat_triple", "single_entry", "astype_reordered_fields", "equality_other_field_shape", "inherited_class",
-                     "two_dim_first_field", "index_array_selector", "simultaneous_iterations", "mismatch_cancelling", "keyword_construction", "equality_nan_shared_column", "equality_same_size_other_shape"]
+                     "two_dim_first_field", "index_array_selector", "simultaneous_iterations", "mismatch_cancelling", "keyword_construction", "equality_nan_shared_column", "equality_same_size_other_shape", "row_number_out_of_range", "narrow_scalar_row_number"]
 BOUNDS = {"quick": "1-3 fields (1-D int, 2-D int, 1-D float) x length 0..4 x {every int, 27 slices, lists of length<=2 incl. empty, every mask} + iteration, "
                    "concatenate pairs and triples with lengths 0..3, equality, astype to a narrower class, fields one entry longer/shorter; VarLenArray "
-                   "concatenation widths 1..3 x lengths 0..2 (pairs) and triples; five field layouts with a 2-D first field; index arrays and numpy scalars; column shapes compared; simultaneous iterations; inherited dataclass",
+                   "concatenation widths 1..3 x lengths 0..2 (pairs) and triples; five field layouts with a 2-D first field; index arrays and numpy scalars; column shapes compared; simultaneous iterations; inherited dataclass; row numbers just outside the table (int, np.int64) refused; tables of 130 / 300 rows addressed with int8 / uint8 / int16 / int32 scalars",
           "thorough": "length 0..6, lists of length<=3"}
 _CLS = {}
 
@@ -89,6 +89,17 @@ def cases(shard, tier):
         for b in (None, 2, -1):
             for c in (None, 2, -1):
                 yield ["get", k, n, ["s", a, b, c]]
+    # row numbers just outside the table (refused by every field array, so by the table), as Python ints and numpy scalars
+    for i in (-n - 2, -n - 1, n, n + 1):
+        yield ["getx", k, n, "int", i]
+        yield ["getx", k, n, "int64", i]
+    if n == 1:
+        # a table longer than a narrow integer type can count: row numbers handed over as numpy scalars of that type
+        for nn in (130, 300):
+            for ty, vals in (("int8", (-128, -127, -1, 0, 127)), ("uint8", (0, 127, 128, 255)), ("int16", (-300, -1, 129, 299)), ("int32", (-1, -130, 129)),
+                             ("int", (-nn, -nn - 1, nn - 1, nn))):
+                for v in vals:
+                    yield ["getx", k, nn, ty, v]
     lmax = 2 if tier == "quick" else 3
     for kk in range(lmax + 1):
         for t in itertools.product(range(-n, n), repeat=kk):
@@ -243,6 +254,19 @@ def check(case, acc):
             _cmp(acc, f"obj[{case[3][0]}]", [tl(x[s2]) for x in f], lambda: tup(mk()[s]))
             _cmp(acc, "len(obj[sel])", len(e[0]), lambda: len(mk()[s]))
         _cmp(acc, "len", n, lambda: len(mk()))
+    elif kind == "getx":
+        ty, v = case[3], case[4]
+        sel = int(v) if ty == "int" else getattr(np, ty)(v)
+        acc.feature("row_number_out_of_range" if not -n <= v < n else "narrow_scalar_row_number")
+        e = attempt(lambda: [x[sel].tolist() for x in f])
+        o = attempt(lambda: [np.asarray(getattr(mk()[sel], nm)).tolist() for nm in names])
+        acc.trans()
+        acc.outcome(("getx", repr(o)))
+        if is_refused(e):
+            if not is_refused(o):
+                acc.fail("row number outside the table accepted", "refused (every field array refuses it)", o)
+        elif o != e:
+            acc.fail(f"obj[np.{ty}]", e, o)
     elif kind == "iter":
         e = [[x[i].tolist() for x in f] for i in range(n)]
         ent = lambda x: [np.asarray(getattr(x, nm)).tolist() for nm in names]
